@@ -103,3 +103,11 @@ Lemma zero_bin_position n : 0 < n -> src_axis false n (n / 2) = 0 /\ src_axis tr
 Proof.
   intro Hn. unfold src_axis, fftshift_src. rewrite Z.sub_diag. split; [apply Z.mod_0_l; lia | reflexivity].
 Qed.
+
+(* the arrangement is a pure re-indexing: it commutes with any cell-wise map (taking a
+   component, scaling, adding) -- transforms act per component and the arrangement is linear *)
+Lemma arrange_map {V W} (f : V -> W) d real ns bins :
+  arrange (f d) real ns (map f bins) = map f (arrange d real ns bins).
+Proof.
+  unfold arrange. rewrite map_map. apply map_ext. intros j. apply map_nth.
+Qed.
